@@ -347,4 +347,15 @@ def c02_g(ctx: Ctx):
     return sentinel_discipline(ctx, "C02-g", SENTINELS_C02)
 
 
-RULES = [c02_a, c02_b, c02_c, c02_d, c02_e, c02_f, c02_g]
+@rule("C02-h")
+def c02_h(ctx: Ctx):
+    """init() is idempotent also when somebody else creates the directory first (C12-a); a failed lazy load is not forgotten (from C09-a)."""
+    from .c12 import c12_a
+    from .c09 import c09_a
+    res = c12_a(ctx) + [r for r in c09_a(ctx) if "flag-after-load" in r.construct]
+    for r in res:
+        r.rule = "C02-h"
+    return res
+
+
+RULES = [c02_a, c02_b, c02_c, c02_d, c02_e, c02_f, c02_g, c02_h]
